@@ -384,11 +384,13 @@ class Histories(_C53):
              "with a ledger of everything written: suffix/equality, rotated sizes >= rotateLength, retention count")
     scope = ("quick: every history of length <= 4 over the 7 operations {write 1 byte, write 5 bytes, write 1 "
              "two-byte character, write 2 three-byte characters, write empty bytes, reopen(), restart} x rotateLength "
-             "in {1,2,3,6} x maxRotatedFiles in {None,1,2}; every history of length <= 7 over {write 1 byte, write 1 "
+             "in {1,2,3,6} x maxRotatedFiles in {None,1,2}; every history of length <= 6 over {write 1 byte, write 1 "
              "two-byte character, restart} x rotateLength {1,2} x maxRotatedFiles {None,1,2,3}; rotateLength None/0 "
              "on length <= 3; runs of 11..13 one-byte / one-character writes at rotateLength 1 with a restart or "
-             "reopen() at every position, maxRotatedFiles {None,9,10,11} (two-digit identifiers). thorough: length <= 5 over 9 operations (adds 1 four-byte character, mixed 4-character "
-             "text), rotateLength {1,2,3,5,6,7}, maxRotatedFiles {None,1,2,3}; length <= 9 over the 3-operation "
+             "reopen() at every position, maxRotatedFiles {None,9,10,11} (two-digit identifiers). "
+             "thorough: length <= 4 over 9 operations (adds 1 four-byte character, mixed 4-character text), "
+             "rotateLength {1,2,3,5,6,7}, maxRotatedFiles {None,1,2,3}; length <= 5 over the 7 operations with the "
+             "quick parameters; length <= 9 over the 3-operation "
              "alphabet; 30000 seeded random histories of up to 40 operations, rotateLength up to 64, observed after "
              "flush() after every step.")
 
@@ -406,20 +408,21 @@ class Histories(_C53):
             seen.add(c)
             return True
 
-        alpha = self.ALPHA_T if thorough else self.ALPHA_Q
-        Ls = (1, 2, 3, 5, 6, 7) if thorough else (1, 2, 3, 6)
-        Ns = (None, 1, 2, 3) if thorough else (None, 1, 2)
-        maxlen = 5 if thorough else 4
-        for n in range(1, maxlen + 1):
-            for ops in itertools.product(alpha, repeat=n):
-                if not any(isinstance(o, tuple) for o in ops):
-                    continue
-                for L in Ls:
-                    for N in Ns:
-                        c = (L, N, ops)
-                        if emit(c):
-                            yield c
-        for n in range(1, (9 if thorough else 7) + 1):
+        plans = [(self.ALPHA_Q, 4, (1, 2, 3, 6), (None, 1, 2))]
+        if thorough:
+            plans = [(self.ALPHA_T, 4, (1, 2, 3, 5, 6, 7), (None, 1, 2, 3)),
+                     (self.ALPHA_Q, 5, (1, 2, 3, 6), (None, 1, 2))]
+        for alpha, maxlen, Ls, Ns in plans:
+            for n in range(1, maxlen + 1):
+                for ops in itertools.product(alpha, repeat=n):
+                    if not any(isinstance(o, tuple) for o in ops):
+                        continue
+                    for L in Ls:
+                        for N in Ns:
+                            c = (L, N, ops)
+                            if emit(c):
+                                yield c
+        for n in range(1, (9 if thorough else 6) + 1):
             for ops in itertools.product(self.ALPHA_LONG, repeat=n):
                 if ops[0] == "S" or ops.count("S") > 3:
                     continue
